@@ -11,6 +11,7 @@ import signal
 import sys
 
 from . import canon, gen, simfs
+from . import core as _core
 from .core import BudgetExceeded, rng, sunk_stdout, repo as get_repo
 from .minimise import ddmin
 from .intr import Tracer, ORDERS, unraisable_counter, exc_info_in_tree
@@ -76,6 +77,24 @@ def _render_alarm(signum, frame):       # pylint: disable=unused-argument
     raise RenderTimeout()
 
 
+class _closed_console:
+    "context manager: the simulated console (core.Sink) fails like a closed file while the count runs"
+
+    def __init__(self, on):
+        self.on = bool(on)
+        self._old = False
+
+    def __enter__(self):
+        self._old = _core.SINK_CLOSED
+        if self.on:
+            _core.SINK_CLOSED = True
+        return self
+
+    def __exit__(self, *exc):
+        _core.SINK_CLOSED = self._old
+        return False
+
+
 class _ClosedStdout:
     "sys.stdout of a daemon or of `prog >&-`: every use fails like a closed file"
 
@@ -91,6 +110,12 @@ class _ClosedStdout:
 def stdout_closed_at(k):
     "is the console gone while the renderings of the execution interrupted at event k are produced? (1 in 13)"
     return k % 13 == 5
+
+
+def count_stdout_closed_at(k, ref):
+    """is the console already gone while the COUNT runs? (1 in 17, and only for counts that write nothing to it:
+    a Meek-type count with progress output would fail on a closed console with or without an interrupt)"""
+    return k % 17 == 3 and not ref.get('progress_chars')
 
 
 def _render(R, E, order, closed_stdout=False):
@@ -157,6 +182,7 @@ def summarise(ref, res):
     return dict(event=res['event'], k=res['k'], mech=res['mech'], order=res['order'], driver=res['driver'],
                 flags=res.get('flags'), status=res.get('status'), fired=res.get('fired'),
                 count_exc=res.get('count_exc'), unraisable=res.get('unraisable'), stdout_closed=res.get('stdout_closed'),
+                count_stdout_closed=res.get('count_stdout_closed'),
                 nmark=count_markers(ref, res.get('actions') or []),
                 viols=check(ref, res), rhash=h.hexdigest()[:12])
 
@@ -208,16 +234,16 @@ def sweep_api(R, text, options, event, schedule, ref, budget):
     return tr.results, canon.canon_actions(E.erecord)
 
 
-def run_faulted(R, text, options, event, k, mech, order, driver='api', flags=None, raw=None):
+def run_faulted(R, text, options, event, k, mech, order, driver='api', flags=None, raw=None, closed_count=False):
     """count with SIGINT delivered at event k, then render.
 
     driver 'api'  : Election(...).count(), then E.<renderer>(True) in `order`
     driver 'main' : Droop.main({path, rule..., report/dump/json flags}) through SimFS;
                     `flags` is the set of enabled renderings, `raw` the stored bytes
     """
-    res = dict(event=event, k=k, mech=mech, order=list(order), driver=driver)
+    res = dict(event=event, k=k, mech=mech, order=list(order), driver=driver, count_stdout_closed=bool(closed_count))
     tr = Tracer(R, event=event, k=k, mech=mech, budget=k + 1000)
-    with unraisable_counter() as unr, sunk_stdout():
+    with unraisable_counter() as unr, sunk_stdout(), _closed_console(closed_count):
         if driver == 'api':
             try:
                 E = _new_election(R, text, options)
@@ -613,10 +639,16 @@ def make_case(seed, idx, tier):
     return e, o, text, raw, rnd
 
 
+def case_tty(idx):
+    "does the simulated console of case idx claim to be a terminal?"
+    return (idx // 11) % 2 == 1
+
+
 def probe_case(R, seed, idx, tier):
     "cheap look at candidate case idx: which package lines its uninterrupted count executes (for pool selection)"
     signal.signal(signal.SIGINT, signal.default_int_handler)
     _, o, text, _, _ = make_case(seed, idx, tier)
+    _core.SINK_TTY = case_tty(idx)
     ref = run_reference(R, text, o, 'line', REF_BUDGET[tier])
     if not ref['ok']:
         return dict(idx=idx, ok=False, why=ref['why'], T=0, lines=frozenset())
@@ -686,6 +718,7 @@ def run_case(R, seed, idx, tier):
     signal.signal(signal.SIGINT, signal.default_int_handler)
     P = PARAMS[tier]
     e, o, text, raw, rnd = make_case(seed, idx, tier)
+    _core.SINK_TTY = case_tty(idx)      # every other case counts with a console that says it is a terminal
     out = dict(idx=idx, rule=o['rule'], options=o, explored=False, why=None, execs=0, steps=0,
                viol=[], keys=set(), ref_sites=set(), inj_sites=set(), probes={}, faults={}, T=0, exhaustive=False,
                sample=None, crosschecked=0)
@@ -723,7 +756,8 @@ def run_case(R, seed, idx, tier):
         for viol in sm['viols']:
             viol = dict(viol)
             viol.update(idx=idx, event=sm['event'], k=sm['k'], mech=sm['mech'], order=list(sm['order']),
-                        driver=sm['driver'], flags=sm.get('flags'), site=list(site), header=fired['header'])
+                        driver=sm['driver'], flags=sm.get('flags'), site=list(site), header=fired['header'],
+                        count_stdout_closed=bool(sm.get('count_stdout_closed')))
             out['viol'].append(viol)
         if st == 'swallowed':
             probe('swallowed_by_package')
@@ -763,6 +797,8 @@ def run_case(R, seed, idx, tier):
             probe('unraisable_seen')
         if sm.get('stdout_closed'):
             probe('rendered_with_closed_stdout')
+        if sm.get('count_stdout_closed'):
+            probe('counted_with_closed_stdout')
 
     converted = []      # executions in which count() let out something other than KeyboardInterrupt
 
@@ -778,7 +814,8 @@ def run_case(R, seed, idx, tier):
             if key in seen or len(seen) >= 6:
                 continue
             seen.add(key)
-            res = run_faulted(R, text, o, sm['event'], sm['k'], 'raise', (), 'main', {'report', 'dump', 'json'}, raw)
+            res = run_faulted(R, text, o, sm['event'], sm['k'], 'raise', (), 'main', {'report', 'dump', 'json'}, raw,
+                              closed_count=bool(sm.get('count_stdout_closed')))
             out['steps'] += sm['k']
             probe('converted_interrupt_confirmed_through_driver')
             account(summarise(ref_, res))
@@ -794,7 +831,8 @@ def run_case(R, seed, idx, tier):
             if k > cut:
                 break
             for (mech, order) in schedule[k]:
-                res = run_faulted(R, text, o, event, k, mech, order, 'api')
+                res = run_faulted(R, text, o, event, k, mech, order, 'api',
+                                  closed_count=count_stdout_closed_at(k, ref_))
                 out['steps'] += k
                 account(summarise(ref_, res))
         if not late:
@@ -965,6 +1003,8 @@ def replay_object(R, seed, viol, text, raw, options):
     "the replay file content of one violation"
     return dict(property='C19', verif_seed=seed, run=viol['idx'], engine='intr',
                 case=dict(blt=text, raw_b64=base64.b64encode(raw).decode('ascii'), options=options),
+                console=dict(tty=bool(_core.SINK_TTY),
+                             closed_during_count=bool(viol.get('count_stdout_closed')) and viol['driver'] == 'main'),
                 fault=dict(mechanism=viol['mech'], event=viol['event'], k=viol['k'],
                            site="%s:%s:%d" % tuple(viol['site']) if viol.get('site') else None),
                 renderers=viol['order'], driver=viol['driver'], flags=viol.get('flags'),
@@ -985,7 +1025,10 @@ def run_replay(R, obj, tier='quick'):
     if not ref['ok']:
         return None, 'reference: ' + ref['why']
     flags = set(obj['flags']) if obj.get('flags') else None
-    res = run_faulted(R, text, o, event, f['k'], f['mechanism'], tuple(obj['renderers']), obj['driver'], flags, raw)
+    _core.SINK_TTY = bool((obj.get('console') or {}).get('tty'))
+    res = run_faulted(R, text, o, event, f['k'], f['mechanism'], tuple(obj['renderers']), obj['driver'], flags, raw,
+                      closed_count=(obj['driver'] == 'api' and count_stdout_closed_at(f['k'], ref)) or
+                      bool((obj.get('console') or {}).get('closed_during_count')))
     viols = check(ref, res)
     for v in viols:
         v.update(event=event, k=f['k'], mech=f['mechanism'], order=list(obj['renderers']), driver=obj['driver'],
@@ -995,7 +1038,7 @@ def run_replay(R, obj, tier='quick'):
     return viols, res.get('status')
 
 
-def _find(R, text, raw, o, target, event, order, driver, flags, mech, ks):
+def _find(R, text, raw, o, target, event, order, driver, flags, mech, ks, force_closed=False):
     "first k of ks at which the target violation class shows; (k, viol) or None"
     ref = run_reference(R, text, o, event, REF_BUDGET['quick'] * (8 if event == 'opcode' else 3 if event == 'xline' else 1))
     if not ref['ok']:
@@ -1003,13 +1046,15 @@ def _find(R, text, raw, o, target, event, order, driver, flags, mech, ks):
     for k in ks:
         if k > ref['T']:
             break
-        res = run_faulted(R, text, o, event, k, mech, order, driver, flags, raw)
+        res = run_faulted(R, text, o, event, k, mech, order, driver, flags, raw,
+                          closed_count=(driver == 'api' and count_stdout_closed_at(k, ref)) or force_closed)
         for v in check(ref, res):
             if vclass(v) == target:
                 v = dict(v)
                 v.update(event=event, k=k, mech=mech, order=list(order), driver=driver,
                          flags=sorted(flags) if flags else None,
-                         site=list(res['fired']['site']), header=res['fired']['header'])
+                         site=list(res['fired']['site']), header=res['fired']['header'],
+                         count_stdout_closed=bool(res.get('count_stdout_closed')))
                 return k, v
     return None
 
@@ -1034,7 +1079,9 @@ def minimise(R, seed, viol, tier, budget_tests=60):
         step = max(1, kmax // 400)
         return list(range(1, 401)) + list(range(401, kmax, step)) + [kmax]
 
-    got = _find(R, text, raw, o, target, event, order, driver, flags, mech, ks_upto(viol['k']))
+    force_closed = bool(viol.get('count_stdout_closed')) and driver == 'main'
+    _core.SINK_TTY = case_tty(idx)
+    got = _find(R, text, raw, o, target, event, order, driver, flags, mech, ks_upto(viol['k']), force_closed)
     if got:
         best = dict(got[1], idx=idx)
     tests = [0]
@@ -1049,7 +1096,8 @@ def minimise(R, seed, viol, tier, budget_tests=60):
         except Exception:       # pylint: disable=broad-except
             return None
         r2 = t2.encode('utf-8')
-        g = _find(R, t2, r2, o2, target, event, order, driver, flags, mech, ks_upto(max(best['k'] * 2, 300)))
+        g = _find(R, t2, r2, o2, target, event, order, driver, flags, mech, ks_upto(max(best['k'] * 2, 300)),
+                  force_closed)
         if g:
             return t2, r2, g
         return None
